@@ -1,6 +1,7 @@
 package rules
 
 import (
+	"go/token"
 	"go/types"
 	"sort"
 	"strings"
@@ -249,6 +250,83 @@ func c16arbitrator(c *Ctx) {
 			ok := call != nil && idx == 0 && call.Call.IsInvoke() && call.Call.Method.Name() == "GetPodsForRef" && len(call.Call.Args) == 4 && isFalseConst(call.Call.Args[3])
 			r.Check(ok || !selfTests, "FLOW", key, c.InstrPos(un), "the list includes inactive replicas (active=false)", "the list handed to getUnavailablePods is pre-filtered to active pods (or does not come from GetPodsForRef(.., false)): terminating and failed replicas are no longer counted as unavailable, so a workload at its limit still passes")
 		}
+	}
+
+	// limit comparisons
+	r.Rule("COMPARE(limits): in each limit filter the refusal test is 'count >= limit' (not '>') with the limit derived from the matching argument (MaxMigratingGlobally / PerNode / PerNamespace; GetMaxMigrating / GetMaxUnavailable for workloads); once that test holds every reachable return is false; the gate-skip shortcut tests the filter's own gate constant")
+	for _, lf := range []struct {
+		fn      string
+		markers []string
+		gates   []string
+	}{
+		{"filterMaxMigratingGlobally", []string{"MaxMigratingGlobally"}, []string{"MaxMigratingGlobally"}},
+		{"filterMaxMigratingPerNode", []string{"MaxMigratingPerNode"}, []string{"MaxMigratingPerNode"}},
+		{"filterMaxMigratingPerNamespace", []string{"MaxMigratingPerNamespace"}, []string{"MaxMigratingPerNamespace"}},
+		{"filterMaxMigratingOrUnavailablePerWorkload", []string{"GetMaxMigrating", "GetMaxUnavailable"}, []string{"MaxMigratingPerWorkload", "MaxUnavailablePerWorkload"}},
+	} {
+		fn := c.Fn(arbitratorPkg, "filter", lf.fn)
+		if fn == nil {
+			continue
+		}
+		for _, marker := range lf.markers {
+			rooted := func(v ssa.Value) bool {
+				for x := range backwardAll(v) {
+					switch y := x.(type) {
+					case *ssa.FieldAddr:
+						if fieldNameOf(y) == marker {
+							return true
+						}
+					case *ssa.Call:
+						if an.ShortCallee(&y.Call) == marker {
+							return true
+						}
+					}
+				}
+				return false
+			}
+			var cmps []*ssa.BinOp
+			for _, b := range fn.Blocks {
+				for _, in := range b.Instrs {
+					bo, ok := in.(*ssa.BinOp)
+					if !ok {
+						continue
+					}
+					switch bo.Op {
+					case token.GEQ, token.GTR, token.LSS, token.LEQ:
+						if rooted(bo.Y) && !rooted(bo.X) {
+							cmps = append(cmps, bo)
+						}
+					}
+				}
+			}
+			key := fkey(fn) + "/limit:" + marker
+			if len(cmps) != 1 {
+				r.Check(false, "COMPARE", key, c.Pos(fn.Pos()), "", sprintf("expected exactly one comparison of a count with the %s limit, found %d", marker, len(cmps)))
+				continue
+			}
+			bo := cmps[0]
+			reach := an.Explore(fn, an.After(bo), an.Facts{bo: an.True}, nil)
+			allFalse := true
+			for _, ret := range reach.Returns() {
+				if reach.EvalAt(ret.Results[0], ret) != an.False {
+					allFalse = false
+				}
+			}
+			r.Check(bo.Op == token.GEQ && allFalse, "COMPARE", key, c.InstrPos(bo), "refused when count >= limit", sprintf("the %s test is '%s' and a true outcome leads only to refusal: %v - with '>' one job more than the configured maximum is admitted", marker, bo.Op, allFalse))
+		}
+		// gate constants
+		var seenGates []string
+		for _, cl := range an.Calls(fn, false) {
+			if an.ShortCallee(cl.Common()) == "isEvictionGateSkipped" {
+				if g, ok := constString(cl.Common().Args[1]); ok {
+					seenGates = append(seenGates, g)
+				}
+			}
+		}
+		sort.Strings(seenGates)
+		want := append([]string{}, lf.gates...)
+		sort.Strings(want)
+		r.Check(strings.Join(seenGates, ",") == strings.Join(want, ","), "COMPARE", fkey(fn)+"/own-gate", c.Pos(fn.Pos()), "skipped only by its own eviction gate", sprintf("the filter is skipped by gate(s) %v, expected %v: skipping a different gate silently disables this limit", seenGates, want))
 	}
 
 	// registration table
